@@ -100,8 +100,16 @@ func acceptedWorkload(c *fw.Ctx, scale int, emit emitFn) {
 			sb.WriteString("GET /r\n  200 regex\n    " + pick(regexes) + "\n  Request regex\n    " + pick(regexes) + "\n")
 		case 4: // query / headers / bodies
 			sb.WriteString("POST /q\n  Query \"a=1\"\n    " + sch() + "\n  Request\n    Headers\n      " + sch() + "\n    Body\n      " + sch() + "\n  200\n    Headers\n      " + sch() + "\n    Body " + pick([]string{"any", "empty", "@t", "regex\n      /a/", "\n      " + sch()}) + "\n")
-		case 5: // repeated codes and notations
+		case 5: // repeated codes and notations; responses that consist of a code and Headers only (no body anywhere)
 			sb.WriteString("GET /c\n  200 any\n  200 empty\n  404 @t\n  500 [@t]\n  501 regex\n    /x/\n")
+			switch r.Intn(4) {
+			case 0:
+				sb.WriteString("  304 // not modified\n    Headers\n      {\"ETag\": \"x\"}\n")
+			case 1:
+				sb.WriteString("POST /c\n  201\n    Headers\n      {\"Location\": \"/c/1\"}\n  202 any\n")
+			case 2:
+				sb.WriteString("POST /c\n  Request\n    Headers\n      {\"X\": \"y\"}\n  200 any\n")
+			}
 		case 6: // json-rpc
 			sb.WriteString("URL /rpc\n  Protocol json-rpc-2.0\n  Method m1\n    Params\n      " + sch() + "\n    Result\n      " + sch() + "\n  Method m2\n    Tags @g\nTAG @g\n")
 		case 7: // tags
